@@ -321,27 +321,31 @@ def topicP (crc32c crc32 : Bytes → Nat) (hasComp : Bool) (version : Int) : P D
   emptyTags flexible
   pure ⟨name, id, parts⟩
 
+/-- a frame after its size field -/
+def requestTail (crc32c crc32 : Bytes → Nat) (hasComp : Bool) (frameLen : Nat) : P DReq := do
+  let key ← iN 2
+  if key != 0 then err "api-key"
+  let version ← iN 2
+  if version < 0 || version > 13 then err "version"
+  let flexible := decide (version ≥ 9)
+  let corr ← iN 4
+  let clientId ← nullableStringP false
+  emptyTags flexible
+  let txn ← (if version ≥ 3 then nullableStringP flexible else pure none)
+  let acks ← iN 2
+  let timeout ← iN 4
+  let nt ← arrayLenP flexible
+  let topics ← repeatP (topicP crc32c crc32 hasComp version) nt
+  emptyTags flexible
+  pure ⟨frameLen, version, corr, clientId, txn, acks, timeout, topics⟩
+
 /-- a whole frame as written to the connection -/
 def requestP (crc32c crc32 : Bytes → Nat) (hasComp : Bool) (frame : Bytes) : P DReq :=
   within frame "frame" (do
     let size ← iN 4
     let rest ← get
     if size != (rest.length : Int) then err "frame-length"
-    let key ← iN 2
-    if key != 0 then err "api-key"
-    let version ← iN 2
-    if version < 0 || version > 13 then err "version"
-    let flexible := decide (version ≥ 9)
-    let corr ← iN 4
-    let clientId ← nullableStringP false
-    emptyTags flexible
-    let txn ← (if version ≥ 3 then nullableStringP flexible else pure none)
-    let acks ← iN 2
-    let timeout ← iN 4
-    let nt ← arrayLenP flexible
-    let topics ← repeatP (topicP crc32c crc32 hasComp version) nt
-    emptyTags flexible
-    pure ⟨frame.length, version, corr, clientId, txn, acks, timeout, topics⟩)
+    requestTail crc32c crc32 hasComp frame.length)
 
 def requestsP (crc32c crc32 : Bytes → Nat) (hasComp : Bool) : List Bytes → P (List DReq)
   | [] => pure []
